@@ -222,7 +222,8 @@ TRUNCATING = re.compile(r"Iterator::(take_while|take|skip|skip_while|step_by|nth
 
 # exhaustive-scan loops, confirmed by reading: function -> why every element must be visited
 SCANS = {
-    "C03": ("C03-R8", {"turmoil::for_pairs": "partition / repair apply to every ordered pair of the two host sets"}),
+    "C03": ("C03-R8", {"turmoil::for_pairs": "partition / repair apply to every ordered pair of the two host sets",
+                       "<regex::Regex as turmoil::dns::ToIpAddrs>::to_ip_addrs": "a regex host set contains every registered name that matches, wherever it was registered"}),
     "C04": ("C04-R7", {"turmoil::sim::Sim::crash": "every matching host is crashed",
                        "turmoil::sim::Sim::run_with_hosts": "every selected host is entered",
                        "turmoil_io_uring::host::IoUringHostState::crash": "every pending operation of the crashed host is dropped"}),
